@@ -84,6 +84,12 @@ CLAIMS.update({
             "terminal sets and depth stated in the evidence; exceptions compared by type"),
 })
 
+CLAIMS.update({
+    "C11": (H, "model_checking", MC + "; term level: exhaustive enumeration of a finite expression language",
+            "term level: every expression of a stated finite language (all operators x operand forms over refs and finite numeric constants incl. negatives/exponents to depth 2 and selected depth 3, builtins with parameters, math.floor/ceil/trunc, calls with positional/keyword numeric arguments, an adversarial key pool incl. keys containing the container labels, computed keys) is printed, evaluated back and must be ==, hash-equal, same value/exception type, same dependencies, and loadable by Manager.load; manager level: on every state reached by assignment histories (incl. load/copy_expr_from with overwrite True/False as operations, and a world whose keys contain the labels) dump()->load() into a fresh manager and copy_expr_from under the rebinding maps s->{s, t, s[sub], t[sub]} must give, state for state (tasks and the four indices with order and counts), the manager obtained by assigning the same definitions, with every definition keeping value and dependencies, and must react to every follow-up assignment as the reference model prescribes",
+            "constants are finite ints/floats; deferred-equality nodes (._eq/._neq) are a listed known finding; expression-task-only alphabets (dump covers expression tasks)"),
+})
+
 NOT_YET = "check under construction in this session; not yet claimed"
 
 
